@@ -61,6 +61,8 @@ def _dump_system(system, skip_empty, orient='records'):
     for name, instance in system.models.items():
         if skip_empty and instance.n == 0:
             continue
+        # refresh the cached dataframe: parameters may have been altered since it was built
+        instance.cache.refresh("df_in")
         out[name] = instance.cache.df_in.to_dict(orient=orient)
 
     return json.dumps(out, indent=2)
